@@ -51,7 +51,8 @@ def h_read_raw(data, dims):
 
 
 PATTERNS = ["picture_%d.raw", "%05d.raw", "a.b_%d.raw", "sub/p%d.raw", "noext_%d", "x%dy.json", "pic-%03d.raw",
-            "dir.v1/p_%d", "dir.v1/p_%d.raw", ".hidden_%d", "sub/.h%d.raw", "dir.v1/q%d.tar.raw"]
+            "dir.v1/p_%d", "dir.v1/p_%d.raw", ".hidden_%d", "sub/.h%d.raw", "dir.v1/q%d.tar.raw",
+            "picture_%.3d", "p%5.3d.raw", "%03d", "sub/%x.raw", "n_%i", "%d%%.raw", "dir.v1/%.2d"]
 
 
 def h_stem(name):
